@@ -30,7 +30,10 @@ def side_prefixes(wl):
     return (elf_dirs_prefix([f['path'] for f in wl['files'] if f['v1']]), elf_dirs_prefix([f['path'] for f in wl['files'] if f['v2']]))
 
 
-def gen_workload(rng, big=False, devel=False, same_prefix=False):
+LINKS = [('lib64', 'lib', 'lib'), ('usr/lib', 'usr/lib64', 'lib64'), ('plugins/c', 'plugins/a', 'a')]   # (link path, directory it stands for, link text)
+
+
+def gen_workload(rng, big=False, devel=False, same_prefix=False, extended=True):
     """A package pair as data: files = [{path, v1, v2}] where v1/v2 name a pool library or None.
     same_prefix: keep the pair where the tool's binary matching is unambiguous (see elf_dirs_prefix): if the removals and
     additions left the two sides with different ELF directory prefixes, a pair of binaries at the package root is added,
@@ -59,6 +62,34 @@ def gen_workload(rng, big=False, devel=False, same_prefix=False):
         else:
             a, b = None, rng.choice(vs)  # added in the second package
         files.append({'path': path, 'v1': None if a is None else '%s_v%d' % (fam, a), 'v2': None if b is None else '%s_v%d' % (fam, b)})
+    nodbg = extended and rng.chance(1, 3)
+    if nodbg:
+        # some binaries are shipped without debug info (symbol-only comparison; an error with --fail-no-dbg)
+        for f in files:
+            if rng.chance(1, 3):
+                side = rng.choice(['v1', 'v2', 'v2'])
+                if f[side]:
+                    f[side] = f[side].split('_')[0] + '_nodbg'
+    dirlink = None
+    if extended and layout != 'flat' and rng.chance(1, 4):
+        # a directory of one package is also reachable through a symbolic link (lib64 -> lib): abipkgdiff walks the tree
+        # with FTS_LOGICAL, so every binary under it is a binary of the package under both paths
+        cands = [(l, d, t) for (l, d, t) in LINKS if any(os.path.dirname(f['path']) == d for f in files) and not any(os.path.dirname(f['path']) == l for f in files)]
+        if cands:
+            l, d, t = rng.choice(cands)
+            side = rng.choice(['first', 'first', 'second', 'both'])
+            for f in [f for f in files if os.path.dirname(f['path']) == d]:
+                g = {'path': l + '/' + os.path.basename(f['path']), 'v1': None, 'v2': None}
+                fam = os.path.basename(f['path'])[3:-3]
+                for sd, key in (('first', 'v1'), ('second', 'v2')):
+                    if side in (sd, 'both'):
+                        g[key] = f[key]                      # the very same file, seen through the link
+                    elif rng.chance(3, 4):
+                        g[key] = '%s_v%d' % (fam, rng.choice(FAMS[fam]))   # a real, independent file on the other side
+                if g['v1'] or g['v2']:
+                    files.append(g)
+                    used.add(g['path'])
+            dirlink = {'link': l, 'dir': d, 'text': t, 'side': side}
     if not any(f['v1'] for f in files):
         files[0]['v1'] = files[0]['v2']
     if not any(f['v2'] for f in files):
@@ -70,7 +101,11 @@ def gen_workload(rng, big=False, devel=False, same_prefix=False):
         opts.append('--no-added-binaries')
     if rng.chance(1, 4):
         opts.append('--redundant')
+    if nodbg and rng.chance(1, 2):
+        opts.append('--fail-no-dbg')
     wl = {'files': files, 'format': fmt, 'abignore': abignore, 'options': opts}
+    if dirlink:
+        wl['dirlink'] = dirlink
     if devel and rng.chance(1, 3):
         wl['devel'] = True      # --devel-pkg1/--devel-pkg2: private-type suppressions are built from the headers of the devel packages
     if same_prefix:
@@ -100,6 +135,11 @@ def materialise(wl, libs, root, order_rng=None):
         if order_rng is not None:
             entries = list(entries)
             order_rng.shuffle(entries)
+        dl = wl.get('dirlink')
+        if dl and dl['side'] in (side, 'both'):
+            entries = [f for f in entries if os.path.dirname(f['path']) != dl['link']]
+            os.makedirs(os.path.dirname(os.path.join(d, dl['link'])), exist_ok=True)
+            os.symlink(dl['text'], os.path.join(d, dl['link']))
         for f in entries:
             p = os.path.join(d, f['path'])
             os.makedirs(os.path.dirname(p), exist_ok=True)
@@ -163,19 +203,32 @@ def model(wl, pair_status):
     # package directory as its top-level member
     top1, top2 = ('', '') if wl['format'] == 'dir' else ('pkg-f1/', 'pkg-s1/')
     status = 0
-    sections, removed, added = [], [], []
+    sections, removed, added, errors = [], [], [], []
+    dl = wl.get('dirlink')
+
+    def real(side, path):
+        # the lists print the resolved path of a binary that was reached through a directory link
+        if dl and dl['side'] in (side, 'both') and os.path.dirname(path) == dl['link']:
+            return dl['dir'] + '/' + os.path.basename(path)
+        return path
+
     for f in wl['files']:
         if f['v1'] and f['v2']:
+            if '--fail-no-dbg' in wl['options'] and (f['v1'].endswith('_nodbg') or f['v2'].endswith('_nodbg')):
+                # the comparison of this pair ends with an error (ABIDIFF_ERROR); nothing else is known about the pair
+                errors.append(os.path.basename(f['path']))
+                status |= 1
+                continue
             st = pair_status(f['v1'], f['v2'], wl['options'])
             status |= st
             if st & 4:
                 sections.append(os.path.basename(f['path']))
         elif f['v1']:
-            removed.append(top1 + f['path'])
+            removed.append(top1 + real('first', f['path']))
             status |= 12
         else:
-            added.append(top2 + f['path'])
-    return {'status': status, 'sections': sorted(sections), 'removed': sorted(removed), 'added': sorted(added)}
+            added.append(top2 + real('second', f['path']))
+    return {'status': status, 'sections': sorted(sections), 'removed': sorted(removed), 'added': sorted(added), 'errors': sorted(errors)}
 
 
 def parse_report(out):
